@@ -5,6 +5,8 @@ V = os.path.dirname(os.path.dirname(os.path.abspath(__file__)))
 rows = []
 for f in sorted(glob.glob(os.path.join(V, "seeded", "*-r4m*", "meta.json"))):
     m = json.load(open(f))
+    if "breaks" not in m:
+        continue
     what = " ".join(m["breaks"].split())[:230].replace("|", "/")
     first = ""
     for c in m["checks_run"].get(m["property"], {}).get("first_findings", []):
